@@ -127,7 +127,7 @@ pub fn gen_live(property: &str, profile: &str, seed: u64) -> Plan {
     if let Latency::HeavyTail { .. } = plan.sched.latency {
         plan.sched.latency = Latency::Uniform(2);
     }
-    let mix = Mix { write: 30, delete: 14, idle: 10, lifecycle: 8, lifecycle_bg: 16, force: 8, free: 3, offload: 0, fsync: 3, restart: 0, clock: 4 };
+    let mix = Mix { write: 30, delete: 14, idle: 10, lifecycle: 8, lifecycle_bg: 16, force: 8, free: 3, offload: 3, fsync: 3, restart: 0, clock: 4 };
     let n = sw.rng.range(4, 32) as usize;
     let mut ops = Vec::new();
     for _ in 0..n {
